@@ -19,41 +19,9 @@
 (* Emitted per tree: the texts, Universe, the verdict for every subset and *)
 (* the expected ExtractLicenses terms; replayed on the real code.          *)
 (***************************************************************************)
-EXTENDS Render, MC_Tree_P
+EXTENDS TreeOps
 
 VARIABLES vTree, vRun
-
-NL == Len(LeafTexts)
-NU == Len(Universe)
-Masks == 1..(2^NU - 1)
-InMask(m, j) == (m \div (2^(j - 1))) % 2 = 1
-
-LeafTerm == TLCEval([k \in 1..NL |-> Parse(LeafTexts[k]).node.term])
-UTerm    == TLCEval([j \in 1..NU |-> Parse(Universe[j]).node.term])
-AllTerms == TLCEval({LeafTerm[k] : k \in 1..NL})
-
-\* truth assignments on terms, per subset of the universe, for both matchers
-TruthD == TLCEval([m \in Masks |-> [t \in AllTerms |-> \E j \in 1..NU : InMask(m, j) /\ MatchDecl(t, UTerm[j])]])
-TruthO == TLCEval([m \in Masks |-> [t \in AllTerms |-> \E j \in 1..NU : InMask(m, j) /\ MatchOp(t, UTerm[j])]])
-
-ASSUME \A k \in 1..NL : Parse(LeafTexts[k]).ok /\ Parse(LeafTexts[k]).node.op = "leaf" /\ InOracle(LeafTexts[k])
-ASSUME \A j \in 1..NU : Parse(Universe[j]).ok /\ Parse(Universe[j]).node.op = "leaf" /\ InOracle(Universe[j])
-ASSUME LowFormsAgree
-
-LLeaf(k) == [op |-> "leaf", lab |-> k]
-RECURSIVE NLeaves(_), Grown(_, _, _), WithTerms(_), WithTexts(_)
-NLeaves(n) == IF n.op = "leaf" THEN 1 ELSE NLeaves(n.l) + NLeaves(n.r)
-\* replace the idx-th leaf (left to right) by sub(leaf)
-Grown(n, idx, sub) ==
-  IF n.op = "leaf" THEN sub
-  ELSE LET nl == NLeaves(n.l) IN
-       IF idx <= nl THEN [n EXCEPT !.l = Grown(n.l, idx, sub)] ELSE [n EXCEPT !.r = Grown(n.r, idx - nl, sub)]
-RECURSIVE LeafAt(_, _)
-LeafAt(n, idx) == IF n.op = "leaf" THEN n
-                  ELSE LET nl == NLeaves(n.l) IN IF idx <= nl THEN LeafAt(n.l, idx) ELSE LeafAt(n.r, idx - nl)
-WithTerms(n) == IF n.op = "leaf" THEN Leaf(LeafTerm[n.lab]) ELSE Bin(n.op, WithTerms(n.l), WithTerms(n.r))
-WithTexts(n) == IF n.op = "leaf" THEN [op |-> "leaf", text |-> LeafTexts[n.lab]]
-                ELSE [op |-> n.op, l |-> WithTexts(n.l), r |-> WithTexts(n.r)]
 
 \* vRun caches, per state, the model's own run of the pipeline on the two renderings of vTree
 \* (TLC re-evaluates a definition at every reference; a variable is computed once per transition).
@@ -73,8 +41,6 @@ TextMin  == vRun.tmin
 TextFull == vRun.tfull
 AstMin   == vRun.amin
 AstFull  == vRun.afull
-
-SameFn(a, b) == Leaves(a) = Leaves(b) /\ \A m \in Masks : Eval(a, TruthD[m]) = Eval(b, TruthD[m])
 
 ParseInv  == /\ AstMin.ok /\ AstFull.ok /\ AstMin.amb = {} /\ AstFull.amb = {}
              /\ SameFn(AstMin.node, Intended) /\ SameFn(AstFull.node, Intended)
